@@ -42,7 +42,7 @@ struct C15 : Harness {
         });
     }
     std::string run(const Program &p, Stats &st) override {
-        MonHooks mh; mh.reset((int)(fnv64(ser(p)) % 3));
+        MonHooks mh; mh.reset((int)(fnv64(ser(p)) % 9));
         ExecOptions eo; eo.hooks = &mh; eo.final_cleanup = false; eo.heap_buffers = heap;
         std::string res;
         {
